@@ -100,7 +100,7 @@ def harness(args, timeout=3600, check=True, stdin=None):
 
 _TLC_STATS = re.compile(r"(\d+) states generated, (\d+) distinct states found")
 _VIOL = re.compile(r'^<<"VIOL", "(.*)">>$')
-_TAGGED = re.compile(r'^<<"([A-Z]+)", "(.*)">>$')
+_TAGGED = re.compile(r'^<<"([A-Z]+)", (.*)>>$')
 
 
 def _unescape_tla(s):
@@ -137,7 +137,11 @@ def tlc(ctx, module, cfg=None, workers=1, trace=None, env=None, timeout=3600, si
     for line in out.splitlines():
         m = _TAGGED.match(line)
         if m:
-            tag, body = m.group(1), _unescape_tla(m.group(2))
+            tag, raw = m.group(1), m.group(2)
+            if raw.startswith('"') and raw.endswith('"'):
+                body = _unescape_tla(raw[1:-1])
+            else:
+                body = raw
             try:
                 val = json.loads(body)
             except Exception:
